@@ -1,12 +1,13 @@
 from checks import finite
 from checks.e3perm import run_e3perm
+from checks.e3tables import run_e3tables
 from checks.generic import run_components
 
-ASSUME = ["A-PERM: the order (rotate, then reflect) and direction of the facet permutations are those DOLFINx's codes denote "
+ASSUME = ["E3 tables: run-time contract on build_optimized_tables (offsets, permutation axis, values against an independent basix tabulation) is bounded by the corpus calls", "A-PERM: the order (rotate, then reflect) and direction of the facet permutations are those DOLFINx's codes denote "
           "(external convention, pinned from current behaviour)", "A-FLOAT: point coordinates are reals",
           "E3 numbering (all pairs of local vertex numberings of two 2D cells sharing an edge, degree-1 spaces, kernels executed numerically) is bounded"]
 
 
 def run(tier, seed):
-    return run_components("C03", tier, seed, ["e1", finite.c03_group_lemmas, finite.c03_stacking, finite.c03_table_predicates, "e2", run_e3perm], ASSUME,
+    return run_components("C03", tier, seed, ["e1", finite.c03_group_lemmas, finite.c03_stacking, finite.c03_table_predicates, "e2", run_e3perm, lambda rep, t, sd: run_e3tables(rep, t, sd, ("T-PERM", "T-VALUE"))], ASSUME,
                           ["kernelvc (E2)"])
